@@ -2,6 +2,7 @@ import I18n.Model.CFmt
 import I18n.Model.PyFmt
 import I18n.Model.FmtSig
 import I18n.Model.CheckPlurals
+import I18n.Model.PyBrace
 /-!
 # Model of the message-format argument checks (property C14)
 
@@ -348,6 +349,57 @@ def perlBraceBackend : Backend (BraceStr PerlBraceSig) PerlBraceSig where
   checkMsgids _ _ := []
   checkArgs := checkArgsPerlBrace
 
+/-! ## the brace kinds on strings: composition with the parser models of C13 -/
+
+/-- `frozenset` of type names: the C13 parser model's set, as the comparator reads it -/
+def tyOfBrace (t : PyBrace.TySet) : TySet := ⟨t.float, t.int, t.str⟩
+
+def keyOfBrace : PyBrace.Key → BKey
+  | .idx n => .idx n
+  | .name s => .name s
+
+/-- what the python-brace checker reads of a parsed `FormatString`: `argument_map` (same keys, same dict order, the `.types` of
+    every `Field` / `NestedField` filed under the key) and `len(fmt)` -/
+def braceSigOf (r : PyBrace.Result) : PyBraceSig :=
+  { args := r.argMap.map fun p => (keyOfBrace p.1, p.2.map fun a => tyOfBrace a.types), nitems := r.items.length }
+
+/-- what the perl-brace checker reads: `arguments` (the set of names) and `len(fmt)` -/
+def perlSigOf (r : PerlBrace.Result) : PerlBraceSig := { args := r.arguments, nitems := r.items.length }
+
+/-- `lib.strformat.pybrace.FormatString(s)` as `check_message` sees it -/
+def pyBraceParse (s : List Char) : ParseOutcome PyBraceSig :=
+  match PyBrace.parse s with
+  | .ok r => .ok (braceSigOf r)
+  | .error (.own _ _) => .own
+  | .error (.crash e) => .crash e
+
+/-- `lib.strformat.perlbrace.FormatString(s)` as `check_message` sees it -/
+def perlBraceParse (s : List Char) : ParseOutcome PerlBraceSig :=
+  match PerlBrace.parse s with
+  | .ok r => .ok (perlSigOf r)
+  | .error (.error _) => .own
+  | .error (.crash e) => .crash e
+
+/-- the python-brace checker on raw strings: the parser model of C13 composed with `check_args` -/
+def pyBraceStrBackend : Backend (List Char) PyBraceSig where
+  truthy s := !s.isEmpty
+  parse := pyBraceParse
+  errTag := "python-brace-format-string-error"
+  okTags _ _ _ _ _ := []
+  len f := f.nitems
+  checkMsgids _ _ := []
+  checkArgs := checkArgsPyBrace
+
+/-- the perl-brace checker on raw strings -/
+def perlBraceStrBackend : Backend (List Char) PerlBraceSig where
+  truthy s := !s.isEmpty
+  parse := perlBraceParse
+  errTag := "perl-brace-format-string-error"
+  okTags _ _ _ _ _ := []
+  len f := f.nitems
+  checkMsgids _ _ := []
+  checkArgs := checkArgsPerlBrace
+
 /-! ## `Checker.check_message` -/
 
 structure Ctx where
@@ -534,6 +586,9 @@ inductive KMsg where
   | python (m : Msg (List Char))
   | pyBrace (m : Msg (BraceStr PyBraceSig))
   | perlBrace (m : Msg (BraceStr PerlBraceSig))
+  /-- the brace kinds given as raw strings (the model parses them itself) -/
+  | pyBraceStr (m : Msg (List Char))
+  | perlBraceStr (m : Msg (List Char))
   /-- a format without a checker (`except KeyError: continue`) -/
   | other
 
@@ -542,6 +597,8 @@ def KMsg.check (ctx : Ctx) (fl : Flags) : KMsg → Except Py.Exc (List TagCall)
   | .python m => checkMessage pyBackend ctx m fl
   | .pyBrace m => checkMessage pyBraceBackend ctx m fl
   | .perlBrace m => checkMessage perlBraceBackend ctx m fl
+  | .pyBraceStr m => checkMessage pyBraceStrBackend ctx m fl
+  | .perlBraceStr m => checkMessage perlBraceStrBackend ctx m fl
   | .other => .ok []
 
 /-- the keys of `self._message_format_checkers` -/
